@@ -988,7 +988,9 @@ pub fn off_path_challenge_native(n: u8) -> u32 {
         }
     }
     assert!(conn.path.remote == addr(1, 4433), "a probing packet must not move the connection");
-    assert!(sent <= 3 * received + 1200, "{} bytes sent to an off-path address that sent {} bytes", sent, received);
+    // every probe is far below 400 bytes, so no answer to it may be padded to a full-size datagram: the unpadded
+    // answers stay within three times what the address sent, without any allowance
+    assert!(sent <= 3 * received, "{} bytes sent to an off-path address that sent {} bytes", sent, received);
     1
 }
 
